@@ -21,6 +21,7 @@ package main
 
 import (
 	"context"
+	"errors"
 	"fmt"
 	"strings"
 	"sync"
@@ -65,7 +66,11 @@ func (t *traceCache) add(l setLog) {
 	t.mu.Unlock()
 }
 
-func isCancel(err error) bool { return err == context.Canceled || err == context.DeadlineExceeded }
+// a fetch that ends with a (possibly wrapped) context error is a cancellation: the
+// next waiting caller takes over (syncutil.Once)
+func isCancel(err error) bool {
+	return errors.Is(err, context.Canceled) || errors.Is(err, context.DeadlineExceeded)
+}
 
 func (t *traceCache) Set(ctx context.Context, registry string, scheme auth.Scheme, key string, fetch func(context.Context) (string, error)) (string, error) {
 	t.mu.Lock()
